@@ -7,7 +7,9 @@ The date codec (AppendHTTPDate / parseCookieExpires) is a parameter; its round t
 (C31's subject) and is checked on every generated expiry by the C06 harness.
 -/
 import FhVerif.Proofs.Cookie
+import FhVerif.Proofs.CookieObj
 import FhVerif.Gen.Facts
+import FhVerif.Gen.CookieScratch
 
 namespace Fh.Props.C06
 open Fh Fh.Model Fh.Spec Fh.Proofs.Cookie
@@ -183,7 +185,69 @@ theorem unsanitised_setcookie_counterexample :
       [([97], [49]), ([98], [50])] := by
   decide +kernel
 
+/-! ### reused and pooled Cookie objects: serialisation depends on the current fields only, never on the history -/
+
+/-- regenerated from cookie.go on every run: the Cookie struct consists of the ten value fields (all assigned by Reset,
+    all assigned by CopyTo, which like ParseBytes starts from Reset) and the scratch buffers bufK / bufV; no method reads a
+    scratch buffer before it has itself written it (a clean write `c.buf = f(c.buf[:0], …)` in an enclosing block).
+    Hence nothing a method returns depends on what an earlier call left in a buffer: the Go object IS the model's ten
+    fields. -/
+theorem scratch_buffers_write_before_read :
+    Gen.cookie_staleScratchReads = [] ∧ Gen.cookie_scratchFields = ["bufK", "bufV"] ∧
+    Gen.cookie_resetFields = ["domain", "expire", "httpOnly", "key", "maxAge", "partitioned", "path", "sameSite", "secure", "value"] ∧
+    (∀ f ∈ Gen.cookie_resetFields, f ∈ Gen.cookie_copyToFields) ∧
+    Gen.cookie_parseBytesResetsFirst = true ∧ Gen.cookie_copyToResetsFirst = true ∧
+    "AppendBytes" ∈ Gen.cookie_methods ∧ "ParseBytes" ∈ Gen.cookie_methods ∧ "CopyTo" ∈ Gen.cookie_methods := by
+  decide
+
+/-- Parse / ParseBytes / ResponseHeader.Cookie overwrite the object: whatever happened to it before (setters, earlier
+    parses, copies, resets, serialisations — `hist`), afterwards its fields are those of the parsed text alone. -/
+theorem parse_overwrites_history (D : DateCodec) (c0 : Cookie) (hist : List CkObjOp) (src : Bytes) :
+    Cookie.runObj D c0 (hist ++ [.parse src]) = (Cookie.parseInto D src).1 := by
+  simp [Cookie.runObj, List.foldl_append, Cookie.applyObj]
+
+/-- the same for CopyTo and for Reset / ReleaseCookie+AcquireCookie -/
+theorem copy_and_reset_overwrite_history (D : DateCodec) (c0 src : Cookie) (hist : List CkObjOp) :
+    Cookie.runObj D c0 (hist ++ [.copyFrom src]) = src ∧ Cookie.runObj D c0 (hist ++ [.reset]) = {} := by
+  simp [Cookie.runObj, List.foldl_append, Cookie.applyObj]
+
+/-- serialising does not change the object: any number of Cookie/String/AppendBytes/WriteTo calls interleaved -/
+theorem serialise_is_pure (D : DateCodec) (c : Cookie) (n : Nat) :
+    Cookie.runObj D c (List.replicate n .serialise) = c := by
+  induction n with
+  | zero => rfl
+  | succ k ih => simpa [Cookie.runObj, List.replicate_succ, Cookie.applyObj] using ih
+
+/-- everything ParseBytes returns has ';'/CR/LF-free text fields, so the theorems above apply to re-serialised cookies -/
+theorem parsed_cookie_clean (D : DateCodec) (src : Bytes) (c : Cookie) (h : Cookie.parseBytes D src = .ok c) :
+    Clean c ∧ c.maxAge ≤ 2 ^ 63 - 1 ∧ c.expire ≠ some 0 :=
+  let p := parse_parsed D src c h
+  ⟨p.clean, p.maxAge, p.expire⟩
+
+/-- C06 on a reused object: after ANY history, a successful Parse of `src` followed by serialisation gives a Set-Cookie
+    string in which a user agent sees exactly the attributes of the parsed cookie (none left over from the history), and
+    which ParseBytes reads back as the canonical form of that cookie — in particular with ITS expiry. -/
+theorem reserialise_after_history (D : DateCodec) (hD : GoodDate D) (c0 : Cookie) (hist : List CkObjOp) (src : Bytes)
+    (c : Cookie) (h : Cookie.parseBytes D src = .ok c) :
+    let obj := Cookie.runObj D c0 (hist ++ [.parse src, .serialise])
+    obj = c ∧ rfcAttrs (obj.appendBytes D) = attrsSet D c ∧
+    Cookie.parseBytes D (obj.appendBytes D) =
+      if (c.appendBytes D).isEmpty then .error .noCookies
+      else if parseable c then .ok (canon c) else .error .invalidValue := by
+  intro obj
+  have hobj : obj = c := by
+    have := (parseInto_ok D src c).1 h
+    simp [obj, Cookie.runObj, List.foldl_append, Cookie.applyObj, this]
+  have hp := parse_parsed D src c h
+  rw [hobj]
+  exact ⟨rfl, rfcAttrs_append D hD.noSemi hp.clean, parse_append D hD c hp.clean hp.maxAge hp.expire⟩
+
 /-! ### non-vacuity -/
+
+-- an object that carried (and serialised) expiry 2099 and then parses a cookie with expiry 2031 serialises 2031
+example : ((Cookie.runObj ckDate {} [.setKey (ofString "a"), .setExpire (some 66233638800), .serialise,
+    .parse (ofString "prefs=xyz; expires=Wed, 01 Jan 2031 10:20:30 GMT; HttpOnly"), .serialise]).appendBytes ckDate) =
+    ofString "prefs=xyz; expires=Wed, 01 Jan 2031 10:20:30 GMT; HttpOnly" := by decide +kernel
 
 -- an attacker-controlled value cannot add a Domain attribute: the ';' is neutralised
 example : rfcAttrs ((build [.key (ofString "k"), .value (ofString "v; Domain=evil.com"), .secure true]).appendBytes ckDate) =
